@@ -55,15 +55,18 @@ theorem C04_no_overstep {s : St} {a : Sp} (h : Rel s a) (op : Op) (hal : Allowed
   exact ⟨h'.ordC, h'.ordW, h'.ordP⟩
 
 /-- Tie to the source: every availability computation loads the index of the iterator ahead exactly once, `check`
-    falls back to exactly one such computation, and the three formulas are the ring distances the order invariant needs
+    falls back to exactly one such computation, `reset_index` loads it once and publishes that very value, an advance publishes the
+    iterator's own new index, and the three formulas are the ring distances the order invariant needs
     (producer: distance to the consumer behind it minus the one slot that stays free). -/
 theorem C04_source_availability_formulas (p l L : Nat) (hL : 0 < L) :
     Gen.skelProdAvailable = [⟨.succIndex, .none⟩] ∧ Gen.skelWorkAvailable = [⟨.succIndex, .none⟩] ∧
     Gen.skelConsAvailable = [⟨.succIndex, .none⟩] ∧ Gen.skelCheck = [⟨.available', .none⟩] ∧
+    Gen.skelConsReset.map (·.name) = [.succIndex, .setAtomicIndex] ∧ Gen.skelWorkReset.map (·.name) = [.succIndex, .setAtomicIndex] ∧
+    Gen.skelAdvance = [⟨.advanceLocal, .count⟩, ⟨.setAtomicIndex, .index⟩] ∧
     (l ≤ p → p - l < L → Gen.prodAvail.ret (p % L) 0 (l % L) L 0 0 = l + (L - 1) - p) ∧
     (p ≤ l → l - p < L → Gen.workAvail.ret (p % L) 0 (l % L) L 0 0 = l - p) ∧
     (p ≤ l → l - p < L → Gen.consAvail.ret (p % L) 0 (l % L) L 0 0 = l - p) :=
-  ⟨rfl, rfl, rfl, rfl, fun h1 h2 => Gen.prodAvail_ret_eq p l L hL h1 h2 0 0 0,
+  ⟨rfl, rfl, rfl, rfl, rfl, rfl, rfl, fun h1 h2 => Gen.prodAvail_ret_eq p l L hL h1 h2 0 0 0,
    fun h1 h2 => Gen.workAvail_ret_eq p l L hL h1 h2 0 0 0, fun h1 h2 => Gen.consAvail_ret_eq p l L hL h1 h2 0 0 0⟩
 
 /-- `advance_local` wraps exactly once at `len`, for every `(index, count, len)` with `count ≤ len`, and none of
